@@ -764,6 +764,15 @@ def cases(rng, tier):
             for q in (2, 3):
                 out.append(Case('ib_one_step', line('ib_one_step', f, [Id('nonmonic'), f], q), oracle=o_step(f, S, q, True),
                                 tag='step:start:pure-wild', always_oracle=True))
+    # one Round-2 step at LARGE primes (p around 2^21, 2^23, 2^31, 2^61): products of three residues mod p exceed a machine word
+    # long before p does; the library works on BigInt and must be exact there. f = (x - s)^2 + q^2 has index q at q,
+    # f = (x - s)^3 - 2 q^3 has index q^3
+    if step_supported():
+        for q in (10007, 2097169, 6000011, 2147483659, 2305843009213693951):
+            for f in ([q * q, 0, 1], [1234567 * 1234567 + q * q, -2 * 1234567, 1], [-2 * q ** 3, 0, 0, 1]):
+                S = [[F(x) for x in r] for r in nonmonic_basis(f)]
+                out.append(Case('ib_one_step', line('ib_one_step', f, [Id('nonmonic'), f], q), oracle=o_step(f, S, q, True),
+                                tag='step:start:large-prime', always_oracle=True))
     # edge stream: outside the property's domain, compared with the model only
     edge = [[], [0], [4], [-1], [0, 0, 1], [0, 0, 0, 1], [1, 2, 1], [-1, 0, 1], [0, 1, 1], [-1, 0, 0, 1], [2, 0, 2], [4, 0, 2], [6, 4],
             [0, 2], [-2, 0, 1, 0, 1], [1, 0, 2, 0, 1], [4, 0, 5, 0, 1], [-4, 0, 0, 0, 1], [0, 1, 0, 1], [1, 0, 0, 0, 0], [2, 3, 0]]
